@@ -34,7 +34,7 @@ def check(ctx):
     # ---- tree counter ----
     n = core.adopt(ctx, c02, lambda o: o["rule"] == "C02.c" and ("counter" in o["key"] or "run-path-always-replays" in o["key"]), "C11.counter")
     ctx.floor("C11.counter", n, 3, "shared counter obligations")
-    ct = A.TABLE["counter_type"]
+    ct = A.names(prog)["counter_type"]
     writers = set()
     for body in prog.bodies:
         for b, t, fr in body.iter_calls():
@@ -47,7 +47,7 @@ def check(ctx):
     # ---- postponed queue ----
     n = core.adopt(ctx, c02, lambda o: o["rule"] == "C02.c" and any(k in o["key"] for k in ("discard", "detached-queue", "replay-present")), "C11.queue")
     ctx.floor("C11.queue", n, 5, "shared queue obligations")
-    q = A.TABLE["queue_type"]
+    q = A.names(prog)["queue_type"]
     qusers = set()
     for body in prog.bodies:
         for b, t, fr in body.iter_calls():
